@@ -679,6 +679,8 @@ func Input(l *InputSharedVars, g *GlobalVarsMain, hPath *HFilePath, driConfig *C
 						}
 					}
 
+					// a dropped pre-start event must not stay behind in the slot after the last kept one
+					g.EINTE[NRTIL+1] = 0
 					for i := 1; i <= NRTIL; i++ {
 						// the second of two tillages of one day moves to the next day; a following event must stay behind it
 						if i < NRTIL && g.EINTE[i+1] <= g.EINTE[i] {
